@@ -343,13 +343,13 @@ def _scan_flags(w, b, v):
                                 work.append(payload['op'])
                             elif kind == 'call':
                                 ct = b.blocks[dbi]['term']
-                                if re.search(r'IntoIterator>?::into_iter$|::iter$', callee_path(ct) or '') and ct['args']:
+                                if re.search(r'IntoIterator>?::into_iter$|::iter$|Deref>?::deref$|::as_slice$', callee_path(ct) or '') and ct['args']:
                                     work.append(ct['args'][0])
                 elif o[0] == 'param' and COLL_TY.search(b.locals[o[1]]['ty']['s']):
                     coll.add(o[1])
                 elif o[0] == 'call':
                     ct = v.pv.call_term(o)
-                    if re.search(r'IntoIterator>?::into_iter$|::iter$', callee_path(ct) or '') and ct['args']:
+                    if re.search(r'IntoIterator>?::into_iter$|::iter$|Deref>?::deref$|::as_slice$', callee_path(ct) or '') and ct['args']:
                         work.append(ct['args'][0])
         if len(coll) != 1:
             continue
@@ -363,7 +363,13 @@ def _scan_flags(w, b, v):
             if not any(o[0] == 'call' and o[1][0] == h for o in subj):
                 continue
             nb = gt.get('target')
+            for _ in range(4):          # blocks that only hand the result on (an expanded closure returns through a move and a jump)
+                if nb is not None and b.blocks[nb]['term']['t'] == 'goto' and all(st['s'] != 'assign' or (st['rv']['r'] == 'use' and st['rv']['op'].get('o') in ('move', 'copy'))
+                                                                                   for st in b.blocks[nb]['stmts']):
+                    nb = b.blocks[nb]['term']['target']
             if nb is None or b.blocks[nb]['term']['t'] != 'switch':
+                continue
+            if not any(o[0] == 'call' and o[1][0] == bi for o in v.pv.peel(v.pv.origins_operand(b.blocks[nb]['term']['discr']))):
                 continue
             for tgt, label in v.switch_edges(nb):
                 if v.label_values(nb, label) != {True}:
@@ -434,7 +440,9 @@ def collection_bypass_obligations(w):
         bad = None
         if not callers:
             bad = 'it has no direct call sites'
-        for (cb, bi, t) in callers:
+        for (cb0, bi, t) in callers:
+            import inline
+            cb = inline.desugared(w, cb0)          # `coll.iter().any(has_comment)` is read as the flag-setting loop it stands for
             cv = BodyView(w, cb)
             flags = _scan_flags(w, cb, cv)
             arg_locals = set()
@@ -519,7 +527,17 @@ def _is_flag_guard(v, sw, flag):
     l = d['p']['l']
     if l == flag:
         return True
-    for (proj, kind, dbi, dsi, payload) in v.pv.defs.get(l, []):
-        if kind == 'rv' and payload['r'] == 'use' and payload['op'].get('o') in ('copy', 'move') and payload['op']['p']['l'] == flag:
-            return True
+    seen = set()
+    for _ in range(4):
+        nxt = None
+        for (proj, kind, dbi, dsi, payload) in v.pv.defs.get(l, []):
+            if kind == 'rv' and payload['r'] == 'use' and payload['op'].get('o') in ('copy', 'move') and not payload['op']['p']['proj']:
+                if payload['op']['p']['l'] == flag:
+                    return True
+                if len(v.pv.defs.get(l, [])) == 1:
+                    nxt = payload['op']['p']['l']
+        if nxt is None or nxt in seen:
+            break
+        seen.add(nxt)
+        l = nxt
     return False
